@@ -44,10 +44,12 @@ structure Entry where
 /-- the EXPECTED inventory: per modelled Go function, its partial operations in source order, each with its disposition -/
 def expected : List (String × List Entry) := [
   ("crypto/dpop/dpop.go:Parse", [
+    ⟨"lencheck:len(message.Signatures()) != 1", .total "guard of Signatures()[0] (model: nSigs != 1)"⟩,
     ⟨"index:message.Signatures()[0]", .site "Parse:Signatures()[0]"⟩,
     ⟨"nilcheck:headers.JWK() == nil", .total "guard: Match later calls t.Headers.JWK().Thumbprint"⟩,
     ⟨"assertok:v.(string)", .total "checked assertion (Cfg.parseTypeChecks)"⟩,
-    ⟨"assertok:v.(string)", .total "checked assertion (Cfg.parseTypeChecks)"⟩]),
+    ⟨"assertok:v.(string)", .total "checked assertion (Cfg.parseTypeChecks)"⟩,
+    ⟨"lencheck:len(token.JwtID()) > maxJtiLength", .total "jti length limit (model: jtiLen > maxJtiLength)"⟩]),
   ("crypto/dpop/dpop.go:DPoP.HTU", [
     ⟨"assertok:v.(string)", .total "checked assertion (Cfg.htuChecked); the unchecked form is site HTU:v.(string)"⟩]),
   ("crypto/dpop/dpop.go:DPoP.HTM", [
@@ -83,10 +85,12 @@ def expected : List (String × List Entry) := [
     ⟨"deref:*service", .total "under service != nil"⟩,
     ⟨"rec:s.ResolveEx", .total "recursion with depth+1 under depth < maxDepth: measure maxDepth - depth (service_resolve_terminates)"⟩]),
   ("vcr/revocation/bitstring.go:bitstring.bit", [
+    ⟨"lencheck:q >= len(*bs)", .total "guard of (*bs)[q]"⟩,
     ⟨"deref:*bs", .total "receiver is the address of a local value at every call site"⟩,
     ⟨"deref:*bs", .total "receiver is the address of a local value at every call site"⟩,
     ⟨"index:(*bs)[q]", .site "bit:(*bs)[q]"⟩]),
   ("vcr/revocation/bitstring.go:bitstring.setBit", [
+    ⟨"lencheck:q >= len(*bs)", .total "guard of (*bs)[q]"⟩,
     ⟨"deref:*bs", .total "receiver is the address of a local value at every call site"⟩,
     ⟨"deref:*bs", .total "receiver is the address of a local value at every call site"⟩,
     ⟨"index:(*bs)[q]", .site "setBit:(*bs)[q]"⟩,
@@ -130,10 +134,12 @@ def expected : List (String × List Entry) := [
     ⟨"indexw:bucketUsed[probe]", .total "map write on a map made in the function"⟩]),
   ("network/dag/tree/iblt.go:Iblt.UnmarshalBinary", [
     ⟨"divmod:len(data) / bucketBytes", .total "bucketBytes is the constant 44"⟩,
+    ⟨"lencheck:len(data) != numBuckets * bucketBytes", .total "the only error of UnmarshalBinary; precedes every assignment"⟩,
     ⟨"for:j < i.numBuckets()", .total "bounded loop"⟩,
     ⟨"index:i.buckets[j]", .total "j < len(i.buckets) is the loop condition (model: Array.push)"⟩,
     ⟨"rec:i.buckets[j].UnmarshalBinary", .total "not recursion: the method of bucket"⟩]),
   ("network/dag/tree/iblt.go:bucket.UnmarshalBinary", [
+    ⟨"lencheck:len(data) != bucketBytes", .total "guard of the array-pointer conversion"⟩,
     ⟨"conv:(*[bucketBytes]byte)(data)", .site "bucket.UnmarshalBinary:(*[bucketBytes]byte)(data)"⟩,
     ⟨"slice:d[:4]", .total "constant bounds on an array of 44"⟩,
     ⟨"slice:d[4:12]", .total "constant bounds on an array of 44"⟩,
@@ -141,7 +147,41 @@ def expected : List (String × List Entry) := [
     ⟨"conv:(*hash.SHA256Hash)(d[12:])", .total "d[12:] has the 32 elements of the target array"⟩,
     ⟨"deref:*keySum", .total "result of the conversion above, never nil"⟩]),
   ("auth/api/iam/openid4vp.go:withCallbackURI", [
-    ⟨"assert:err.(oauth.OAuth2Error)", .site "withCallbackURI:err.(oauth.OAuth2Error)"⟩])]
+    ⟨"assert:err.(oauth.OAuth2Error)", .site "withCallbackURI:err.(oauth.OAuth2Error)"⟩]),
+  ("auth/api/iam/openid4vp.go:Wrapper.handleAuthorizeResponseSubmission", [
+    ⟨"nilcheck:request.Body.State == nil", .total "guard of *request.Body.State"⟩,
+    ⟨"nilcheck:request.Body.VpToken == nil", .total "guard of *request.Body.VpToken"⟩,
+    ⟨"deref:*request.Body.VpToken", .total "under the nil check above"⟩,
+    ⟨"lencheck:len(pexEnvelope.Presentations) == 0", .total "GUARD of nonces[0] in validatePresentationNonce (Cfg.envelopeGuard): pe.ParseEnvelope(\"[]\") succeeds with no presentations"⟩,
+    ⟨"deref:*request.Body.State", .total "under the nil check above"⟩,
+    ⟨"deref:*session.OwnSubject", .total "every OAuthSession the node stores under a client state has OwnSubject set (not input)"⟩,
+    ⟨"deref:*session.OwnSubject", .total "every OAuthSession the node stores under a client state has OwnSubject set (not input)"⟩,
+    ⟨"nilcheck:request.Body.PresentationSubmission == nil", .total "guard of *request.Body.PresentationSubmission"⟩,
+    ⟨"deref:*request.Body.PresentationSubmission", .total "under the nil check above"⟩,
+    ⟨"range:pexEnvelope.Presentations", .total "bounded loop"⟩,
+    ⟨"deref:*subjectDID", .total "validatePresentationSigner returns a non-nil DID when it returns no error"⟩,
+    ⟨"range:pexEnvelope.Presentations", .total "bounded loop"⟩,
+    ⟨"deref:*submission", .total "after err == nil of ParsePresentationSubmission"⟩,
+    ⟨"deref:*pexEnvelope", .total "after err == nil of ParseEnvelope"⟩,
+    ⟨"discard:session.OpenID4VPVerifier.next()", .total "second result unused"⟩,
+    ⟨"nilcheck:nextWalletOwnerType != nil", .total "flow control"⟩,
+    ⟨"deref:*callbackURI", .total "session.redirectURI() of a stored session"⟩]),
+  ("auth/api/iam/openid4vp.go:Wrapper.validatePresentationNonce", [
+    ⟨"range:presentations", .total "bounded loop"⟩,
+    ⟨"lencheck:len(nonces) > 1", .total "error: differing nonces"⟩,
+    ⟨"lencheck:len(errs) > 0", .total "error return"⟩,
+    ⟨"range:nonces", .total "bounded loop"⟩,
+    ⟨"index:nonces[0]", .site "validatePresentationNonce:nonces[0]"⟩]),
+  ("auth/api/iam/openid4vp.go:extractChallenge", [
+    ⟨"discard:presentation.JWT().Get(\"nonce\")", .total "missing claim gives nil, then the checked assertion gives \"\""⟩,
+    ⟨"assertok:nonceRaw.(string)", .total "checked assertion"⟩,
+    ⟨"nilcheck:proof.Challenge != nil", .total "guard of *proof.Challenge"⟩,
+    ⟨"deref:*proof.Challenge", .total "under the nil check"⟩,
+    ⟨"deref:*proof.Challenge", .total "under the nil check"⟩]),
+  ("auth/api/iam/validation.go:Wrapper.validatePresentationAudience", [
+    ⟨"nilcheck:proof.Domain != nil", .total "guard of *proof.Domain"⟩,
+    ⟨"deref:*proof.Domain", .total "under the nil check"⟩,
+    ⟨"range:audience", .total "bounded loop"⟩])]
 
 def expectedOps : List (String × List String) := expected.map fun p => (p.1, p.2.map (·.go))
 
@@ -163,7 +203,8 @@ def resolverCfg : Resolver.Cfg :=
       && has "vdr/resolver/key.go:DIDKeyResolver.ResolveKey" "nilcheck:key.VerificationMethod == nil" }
 
 def callbackCfg : Callback.Cfg :=
-  { assertChecked := !has "auth/api/iam/openid4vp.go:withCallbackURI" "assert:err.(oauth.OAuth2Error)" }
+  { assertChecked := !has "auth/api/iam/openid4vp.go:withCallbackURI" "assert:err.(oauth.OAuth2Error)"
+    envelopeGuard := has "auth/api/iam/openid4vp.go:Wrapper.handleAuthorizeResponseSubmission" "lencheck:len(pexEnvelope.Presentations) == 0" }
 
 def ibltCfg : Iblt.Cfg :=
   { k := Facts.C19.ibltK
